@@ -4,7 +4,7 @@ import vlib, apitrace
 def run(res, a):
     if a.replay:
         return apitrace.replay(res, "C04", a.replay)
-    vlib.proof_stage(res, "C04")
+    vlib.proof_stage(res, "C04", files=["C04", "C04zero"])
     # corpus first: the witness of the repaired rezalloc defect (known_findings.txt, fixed: C04 9a9d12e)
     import os
     cdir = os.path.join(vlib.VERIF, "corpus", "C04")
@@ -28,4 +28,8 @@ def run(res, a):
         res.cov["evaluations"] += st.get("records", 0)
     except ImportError:
         pass
-    res.cov["rule"] = ("API traces on the real allocator: memory is dirtied with non-zero patterns, freed and re-used; every zalloc/calloc/zalloc_aligned/small result is read back as zero over the requested size; rezalloc/recalloc monotone growth chains (in place and moving, with writes inside the requested size between steps) are checked byte by byte on [old requested, new requested). distinct = distinct traces (+ function-level records of harness/f_api.c compared with the Coq API model)")
+    # the zero-KNOWLEDGE layer (Model/Zero.v, Properties/C04zero.v): the real flags next to what the memory really contains
+    # (impl:zero-flag-wrong), and the extracted model replayed on the same calls (corr:zero, corr:zero-ghost): tools/zeromodel.py
+    import zeromodel
+    zeromodel.run(res, a.seed, a.tier)
+    res.cov["rule"] = ("API traces on the real allocator: memory is dirtied with non-zero patterns, freed and re-used; every zalloc/calloc/zalloc_aligned/small result is read back as zero over the requested size; rezalloc/recalloc monotone growth chains (in place and moving, with writes inside the requested size between steps) are checked byte by byte on [old requested, new requested). distinct = distinct traces (+ function-level records of harness/f_api.c compared with the Coq API model) + the knowledge flags found SET by harness/f_zero.c, each confronted with a scan of the memory it speaks about (coverage.zero_layer_rule)")
